@@ -616,6 +616,11 @@ func workURLSeq(cd caseData) core.Result {
 		res.Counts["runs"]++
 		res.Counts["writes"] += int64(out.writes)
 		res.Counts["outcome_"+o.class]++
+		if o.class == "panicerror" {
+			// not a violation (a renderer fault reported as an error), but rendering a
+			// string in a URL attribute is not expected to fail: kept visible
+			res.Counts["urlseq_runs_ending_in_panicerror"]++
+		}
 		if o.bad {
 			if len(bad) < 5 {
 				bad = append(bad, fmt.Sprintf("URL sequence %s with shown values (%s): %s", cd.Label, strings.Join(shown, ", "), o.detail))
